@@ -262,7 +262,18 @@ func runUfsX(c *Case, res *result) (err error) {
 		// (requests of an earlier burst may still be passing through open(2):
 		// the test is "one more blocked than are parked", which at worst holds a
 		// moment early; it only selects the schedule)
-		want := len(parked) + 1
+		// (an entry of parked whose request has been answered after all -- it was
+		// judged while another request was passing through open(2) -- does not count)
+		blocked := func() int {
+			n := 0
+			for _, pk := range parked {
+				if k.count(pk.who, "respond.posted") == 0 {
+					n++
+				}
+			}
+			return n
+		}
+		want := blocked() + 1
 		if err := vc.Send(m); err != nil {
 			return &hangError{"harness: " + err.Error()}
 		}
@@ -271,7 +282,7 @@ func runUfsX(c *Case, res *result) (err error) {
 			if k.count(who, "respond.posted") > 0 {
 				return true
 			}
-			if inUfsOpen() >= want {
+			if want = blocked() + 1; inUfsOpen() >= want {
 				isParked = true
 				return true
 			}
